@@ -6,9 +6,22 @@ independently of the readers in `GrcovModel/Gcov.lean`.
   line with its own line terminator), `Report.render : Report → Bytes`, `semText`;
 * JSON form: `Doc` (the coverage model gcov ≥ 9 serialises), `Doc.toJson : Doc → Json`, `semJson`.
 
-The three maps of a `Cov` are built separately, each by "last record for a key wins" (`ofList`)
-or, for text branches, "append in record order" (`groupPush`); `Lemmas/Gcov.lean` characterises
-both through `get?`.
+Text form: the three maps of a `Cov` are built separately, each by "last record for a key wins"
+(`ofList`) or, for branches, "append in record order" (`groupPush`); `Lemmas/Gcov.lean`
+characterises both through `get?`. Names (file, function) are the lossy UTF-8 decoding of the bytes
+in the file (`Lcov.utf8Lossy`; valid UTF-8 is unchanged).
+
+JSON form (gcov ≥ 9 lists a line once per instance of a function group – template instantiations,
+constructor variants – and may list several functions under one demangled name): the denotation
+is stated key by key, not as a fold over the entries:
+* the count of line `l` is the SUM of the counts of all entries with `line_number = l`, clamped at
+  2^64-1 (`lineCount`);
+* the branch vector of `l` is as long as the longest `branches` array among its entries, and slot
+  `i` is taken iff some entry has a positive count at position `i` (`lineBranches`);
+* a function is executed iff some function entry with its demangled name has a positive execution
+  count; its start line is the one of the first such entry (`fnExecuted`, `fnStart`);
+* keys appear in the order of their first entry (`firstKeys`; the real maps are a `BTreeMap` and a
+  hash map, the harness compares in key order).
 -/
 import GrcovModel.Gcov
 namespace Grcov.Gcov.Spec
@@ -132,15 +145,16 @@ def branchOf : Rec → Option (Nat × Bool)
   | .branch l t => some (l.val, decide (t = .taken))
   | _ => none
 
-/-- a function is executed iff its call-count token is not the single character `0` -/
+/-- a function is executed iff its call-count token is not the single character `0`; its name is
+the lossy UTF-8 decoding of the name bytes -/
 def functionOf : Rec → Option (Name × Fn)
-  | .function s c n => some (n, ⟨s.val, decide (c ≠ [48])⟩)
+  | .function s c n => some (Lcov.utf8Lossy n, ⟨s.val, decide (c ≠ [48])⟩)
   | _ => none
 
 /-- what one record does to the section being read (record level of the reader) -/
 def applyRec (a : Text.Acc) : Rec → Text.Acc
   | .lcount l c => Text.onLcount a l.val c.val
-  | .function s c n => Text.onFunction a s.val (decide (c ≠ [48])) n
+  | .function s c n => Text.onFunction a s.val (decide (c ≠ [48])) (Lcov.utf8Lossy n)
   | .branch l t => Text.onBranch a l.val (decide (t = .taken))
   | .other _ _ => a
 
@@ -151,10 +165,11 @@ def secFunctions (rs : List Rec) : List (Name × Fn) := ofList (rs.filterMap fun
 def secCov (rs : List Rec) : Cov :=
   { lines := secLines rs, branches := secBranches rs, functions := secFunctions rs }
 
-/-- a section is reported iff it lists at least one line -/
+/-- a section is reported iff it lists at least one line; its name is the lossy UTF-8 decoding of
+the bytes after `file:` -/
 def semSec (s : FileSec) : Option (Bytes × Cov) :=
   let rs := s.recs.map (·.r)
-  if (rs.filterMap lcountOf).isEmpty then none else some (s.name, secCov rs)
+  if (rs.filterMap lcountOf).isEmpty then none else some (Lcov.utf8Lossy s.name, secCov rs)
 
 def semText (r : Report) : List (Bytes × Cov) := r.secs.filterMap semSec
 
@@ -264,21 +279,57 @@ def FnS.WF (f : FnS) : Prop :=
 def FileS.WF (f : FileS) : Prop := (∀ g ∈ f.functions, g.WF) ∧ ∀ l ∈ f.lines, l.WF
 def Doc.WF (d : Doc) : Prop := ∀ f ∈ d.files, f.WF
 
-def fileLinePairs (f : FileS) : List (Nat × Nat) := f.lines.map fun l => (l.lineNumber, l.count.val)
+/-- the distinct keys of a list, in the order of their first occurrence (`acc`: those seen so far) -/
+def firstKeysInto {κ : Type} [DecidableEq κ] (acc : List κ) : List κ → List κ
+  | [] => acc
+  | k :: ks => firstKeysInto (if k ∈ acc then acc else acc ++ [k]) ks
 
-/-- branch outcomes of the lines that have branches: taken iff the branch count is positive -/
-def fileBranchPairs (f : FileS) : List (Nat × List Bool) :=
-  (f.lines.filter fun l => !l.branches.isEmpty).map fun l =>
-    (l.lineNumber, l.branches.map fun b => decide (b.count.val > 0))
+def firstKeys {κ : Type} [DecidableEq κ] (ks : List κ) : List κ := firstKeysInto [] ks
 
-def fileFunctionPairs (f : FileS) : List (Name × Fn) :=
-  f.functions.map fun g => (g.demangledName, ⟨g.startLine, decide (g.executionCount.val > 0)⟩)
+/-- the entries of `lines` for line `l` -/
+def entriesOf (f : FileS) (l : Nat) : List LineS := f.lines.filter fun e => e.lineNumber = l
+
+/-- count of line `l`: the sum over its entries, clamped at 2^64-1 -/
+def lineCount (f : FileS) (l : Nat) : Nat := min ((entriesOf f l).map (·.count.val)).sum U64MAX
+
+/-- number of branch slots of line `l`: the longest `branches` array among its entries -/
+def branchSlots (f : FileS) (l : Nat) : Nat :=
+  ((entriesOf f l).map (·.branches.length)).foldr max 0
+
+/-- slot `i` of line `l` is taken iff some entry of the line has a positive count at position `i` -/
+def branchTaken (f : FileS) (l i : Nat) : Bool :=
+  (entriesOf f l).any fun e => match e.branches[i]? with
+    | some b => decide (b.count.val > 0)
+    | none => false
+
+def lineBranches (f : FileS) (l : Nat) : List Bool :=
+  (List.range (branchSlots f l)).map (branchTaken f l)
+
+/-- the function entries with demangled name `n` -/
+def fnEntries (f : FileS) (n : Name) : List FnS := f.functions.filter fun g => g.demangledName = n
+
+/-- executed iff some entry with that demangled name has a positive execution count -/
+def fnExecuted (f : FileS) (n : Name) : Bool :=
+  (fnEntries f n).any fun g => decide (g.executionCount.val > 0)
+
+/-- the start line of the first entry with that demangled name -/
+def fnStart (f : FileS) (n : Name) : Nat := ((fnEntries f n).head?.map (·.startLine)).getD 0
+
+def semLines (f : FileS) : List (Nat × Nat) :=
+  (firstKeys (f.lines.map (·.lineNumber))).map fun l => (l, lineCount f l)
+
+/-- only lines with at least one entry that has branches get a vector -/
+def semBranches (f : FileS) : List (Nat × List Bool) :=
+  (firstKeys ((f.lines.filter fun e => !e.branches.isEmpty).map (·.lineNumber))).map fun l =>
+    (l, lineBranches f l)
+
+def semFunctions (f : FileS) : List (Name × Fn) :=
+  (firstKeys (f.functions.map (·.demangledName))).map fun n => (n, ⟨fnStart f n, fnExecuted f n⟩)
 
 /-- a file is reported iff it lists at least one line -/
 def semFile (f : FileS) : Option (Bytes × Cov) :=
   if f.lines.isEmpty then none
-  else some (f.file, { lines := ofList (fileLinePairs f), branches := ofList (fileBranchPairs f),
-                       functions := ofList (fileFunctionPairs f) })
+  else some (f.file, { lines := semLines f, branches := semBranches f, functions := semFunctions f })
 
 def semJson (d : Doc) : List (Bytes × Cov) := d.files.filterMap semFile
 
